@@ -187,3 +187,15 @@ Proof. destruct (ple_total x x); assumption. Qed.
 Definition of_nat (n : nat) : b64 :=
   binary_normalize 53 1024 P53 P1024 mode_NE (Z.of_nat n) 0 false.
 Definition ftwo : b64 := of_nat 2.
+
+(* ---- NaN propagates through the arithmetic operations ---- *)
+Lemma fsub_nan_l y : fsub fnan y = fnan. Proof. destruct y as [s|s| |s m e H]; reflexivity. Qed.
+Lemma fsub_nan_r x : fsub x fnan = fnan. Proof. destruct x as [s|s| |s m e H]; reflexivity. Qed.
+Lemma fadd_nan_l y : fadd fnan y = fnan. Proof. destruct y as [s|s| |s m e H]; reflexivity. Qed.
+Lemma fadd_nan_r x : fadd x fnan = fnan. Proof. destruct x as [s|s| |s m e H]; reflexivity. Qed.
+Lemma fmul_nan_l y : fmul fnan y = fnan. Proof. destruct y as [s|s| |s m e H]; reflexivity. Qed.
+Lemma fmul_nan_r x : fmul x fnan = fnan. Proof. destruct x as [s|s| |s m e H]; reflexivity. Qed.
+Lemma fdiv_nan_l y : fdiv fnan y = fnan. Proof. destruct y as [s|s| |s m e H]; reflexivity. Qed.
+Lemma fdiv_nan_r x : fdiv x fnan = fnan. Proof. destruct x as [s|s| |s m e H]; reflexivity. Qed.
+Lemma fsqrt_nan : fsqrt fnan = fnan. Proof. reflexivity. Qed.
+Lemma fabs_nan : fabs fnan = fnan. Proof. reflexivity. Qed.
